@@ -406,6 +406,11 @@ func streamChan(o *Out, r *rand.Rand, n int, thorough bool) {
 		{"go-args-before-start", "c = make(chan int64)\ngo func(a, b) {\nc <- a + b\n}(probe(1), probe(2))\nprobe(3)\n<-c", "3"},
 		{"convert-float-to-int64-chan", "c = make(chan int64, 1)\nc <- 2.0\n<-c", "2"},
 		{"convert-int-to-float-chan", "c = make(chan float64, 1)\nc <- 2\n<-c", "2"},
+		// a send converts the item as Go's conversion does: values that ROUND to the element type are delivered (rounded)
+		{"convert-rounds-to-float32", "c = make(chan float32, 4)\nfor v in [0.1, 1.1, 2.5, 16777217] {\nc <- v\n}\nclose(c)\nn = 0\nfor x in c {\nif x > 0 {\nn++\n}\n}\nn", "4"},
+		{"convert-rounds-to-float64", "c = make(chan float64, 2)\nc <- 9007199254740993\nc <- 9223372036854775807\n[(<-c) > 9007199254740000.0, (<-c) > 9e18]", "[true,true]"},
+		{"convert-float-truncates-to-int64", "c = make(chan int64, 2)\nc <- 2.5\nc <- -2.5\n[<-c, <-c]", "[2,-2]"},
+		{"convert-rounding-in-a-stage", "a = make(chan float64)\nb = make(chan float32)\ngo func() {\nfor v in [0.1, 0.2, 0.3, 1.5] {\na <- v\n}\nclose(a)\n}()\ngo func() {\nfor x in a {\nb <- x * 3\n}\nclose(b)\n}()\nn = 0\nfor y in b {\nn++\n}\nn", "4"},
 		{"convert-int-to-string-chan-fails", "c = make(chan string, 1)\nr = \"no-error\"\ntry {\nc <- []\n} catch e {\nr = \"error\"\n}\nr", "error"},
 		{"chan-of-chan-forward", "a = make(chan int64, 1)\nb = make(chan int64, 1)\na <- 7\nb <- a\n<-b", "7"},
 		{"recv-ok-open", "c = make(chan int64, 1)\nc <- 5\nv, ok = <-c\n[v, ok]", "[5,true]"},
